@@ -7,6 +7,7 @@ import (
 	"fmt"
 	"hash/crc32"
 	"io"
+	"math"
 
 	"github.com/klauspost/compress/zstd"
 	"github.com/pierrec/lz4/v4"
@@ -431,6 +432,10 @@ func loadChunk(l *Lexer, recordLen uint64) error {
 	if l.validateChunkCRCs {
 		if l.maxDecompressedChunkSize > 0 && uncompressedSize > uint64(l.maxDecompressedChunkSize) {
 			return ErrChunkTooLarge
+		}
+		if uncompressedSize >= math.MaxInt32 {
+			// also keeps the doubling below from overflowing
+			return fmt.Errorf("failed to allocate chunk buffer: %w", ErrLengthOutOfRange)
 		}
 		if uint64(len(l.uncompressedChunk)) < uncompressedSize {
 			l.uncompressedChunk, err = makeSafe(uncompressedSize * 2)
